@@ -17,6 +17,7 @@ import (
 	"os/exec"
 	"path/filepath"
 	"regexp"
+	"runtime"
 	"strconv"
 	"strings"
 	"unicode/utf16"
@@ -150,7 +151,7 @@ func (w *confWorld) genCase(r *rand.Rand, k int) confCase {
 	}
 	switch r.IntN(10) {
 	case 0: // long
-		n := 200 + r.IntN(5000)
+		n := 200 + r.IntN(1800)
 		s := strings.Repeat([]string{"A", "../", "sub/", "dlink/"}[r.IntN(4)], n)
 		cc.units, cc.label, cc.class = strUnits(s), fmt.Sprintf("%.12s…x%d", s, n), "long"
 	case 1: // lone surrogates / arbitrary units
@@ -333,6 +334,7 @@ func straceHelper(specPath string) {
 	var sp straceSpec
 	must(json.Unmarshal(b, &sp))
 	rd := exel.MakeEfiVarFSReader(sp.Root)
+	runtime.LockOSThread() // markers and reads come from one thread; the monitor ignores the others (runtime / libc noise)
 	for _, cs := range sp.Cases {
 		g, _ := hex.DecodeString(cs.GUID)
 		n, _ := hex.DecodeString(cs.Name)
@@ -349,6 +351,7 @@ func straceHelper(specPath string) {
 
 var (
 	straceLine = regexp.MustCompile(`^(\d+)\s+(\w+)\((.*)$`)
+	resumedRe  = regexp.MustCompile(`^(\d+)\s+<\.\.\. \w+ resumed>(.*)$`)
 	quotedArg  = regexp.MustCompile(`"((?:\\x[0-9a-f]{2})*)"`)
 )
 
@@ -461,12 +464,28 @@ func runStrace(c *core.Ctx, sc *scratch, w *confWorld, batch []straceCase) {
 	for _, cs := range batch {
 		labels[cs.I] = cs.Label
 	}
-	cur := -1
+	cur, curPid := -1, ""
+	pending := map[string]string{}
 	windows, calls := 0, 0
 	s := bufio.NewScanner(f)
 	s.Buffer(make([]byte, 1<<20), 1<<26)
 	for s.Scan() {
 		line := s.Text()
+		// a call interrupted by another thread's output is printed in two pieces: join them
+		if rest, ok := strings.CutSuffix(line, "<unfinished ...>"); ok {
+			if pm := straceLine.FindStringSubmatch(rest); pm != nil {
+				pending[pm[1]] = rest
+			}
+			continue
+		}
+		if rm := resumedRe.FindStringSubmatch(line); rm != nil {
+			first, ok := pending[rm[1]]
+			if !ok {
+				continue
+			}
+			delete(pending, rm[1])
+			line = first + rm[2]
+		}
 		mm := straceLine.FindStringSubmatch(line)
 		if mm == nil {
 			continue
@@ -479,6 +498,7 @@ func runStrace(c *core.Ctx, sc *scratch, w *confWorld, batch []straceCase) {
 		path := unhexEscapes(q[1])
 		if rest, ok := strings.CutPrefix(path, "/verif-marker/begin/"); ok {
 			cur, _ = strconv.Atoi(rest)
+			curPid = mm[1]
 			windows++
 			continue
 		}
@@ -487,6 +507,10 @@ func runStrace(c *core.Ctx, sc *scratch, w *confWorld, batch []straceCase) {
 			continue
 		}
 		if cur < 0 {
+			continue
+		}
+		if mm[1] != curPid {
+			c.Count("strace/other-thread-call-ignored", 1)
 			continue
 		}
 		calls++
